@@ -149,6 +149,10 @@ def operation(sc: dict, idx: int) -> dict:
 
 def document(scs: list[tuple[int, dict]]) -> dict:
     paths = {f"/o{idx}": {"get": operation(sc, idx)} for idx, sc in scs}
+    for idx, sc in scs:
+        if sc.get("sib"):
+            # the sibling: an ordinary operation in the same tag (= the same emitted endpoint module)
+            paths[f"/o{idx}/sib"] = {"get": {"operationId": f"sib{idx}", "tags": [f"t{idx}"], "responses": {"200": features.jresp(R("Other"))}}}
     return {"openapi": "3.0.3", "info": {"title": "Reply API", "version": "1.0.0"}, "paths": paths, "components": {"schemas": SCHEMAS}}
 
 
@@ -293,7 +297,7 @@ def design(chk: Any, maxdecl: int, level: int) -> Counter:
         for f in d["fails"]:
             k = fkey(f["clause"], f["locus"])
             dev[k] += 1
-            first.setdefault(k, {"served": d["served"], "others": d["others"], "content": d["c"], "shape": d["sh"], "served_as": d["ct"]})
+            first.setdefault(k, {"sibling_operation": d["sib"], "served": d["served"], "others": d["others"], "content": d["c"], "shape": d["sh"], "served_as": d["ct"]})
     chk.require(len(dev) > 0, "the as-is design model has no counterexample at all (the known text/plain defect is not modelled?)")
     chk.cov["design_counterexample_classes"] = len(dev)
     chk.cov["design_counterexamples"] = [{"clause": json.loads(k)[0], "locus": json.loads(k)[1], "n": n, "first": first[k]} for k, n in sorted(dev.items())][:200]
@@ -319,7 +323,7 @@ def design(chk: Any, maxdecl: int, level: int) -> Counter:
 
 
 def scen_key(s: dict) -> str:
-    return json.dumps([s["served"], sorted(s["others"]), s["c"], s["sh"]])
+    return json.dumps([s["served"], sorted(s["others"]), s["c"], s["sh"], bool(s.get("sib"))])
 
 
 def scenarios(chk: Check, maxdecl: int, level: int) -> list[dict]:
@@ -411,7 +415,7 @@ def generate_and_serve(chk: Check, scen: list[dict], label: str, pack: int) -> l
                 else:
                     idx, sc = grp[0]
                     ev = [{"body": b, "got": _raise_got(reason["exctype"]), "_msg": f"{reason['stage']} failed: {reason['msg']}"} for b in sc["bodies"]]
-                    traces.append({"id": sc["id"], "served": sc["served"], "others": sc["others"], "c": sc["c"], "sh": sc["sh"], "role": sc["role"], "via": "method", "ann": ["any"], "ev": ev, "_sc": sc, "_ret": "", "_unusable": reason["stage"]})
+                    traces.append({"id": sc["id"], "served": sc["served"], "others": sc["others"], "c": sc["c"], "sh": sc["sh"], "role": sc["role"], "sib": sc["sib"], "via": "method", "ann": ["any"], "ev": ev, "_sc": sc, "_ret": "", "_unusable": reason["stage"]})
                 continue
             _check_obs(o, ["retkinds", "serve_by_path"], j["id"])
             if "helpers" in o:
@@ -436,7 +440,7 @@ def generate_and_serve(chk: Check, scen: list[dict], label: str, pack: int) -> l
                 if rk["kinds"] == ["unresolved"]:
                     chk.note_drift(f"return annotation of the method for scenario {sc['id']} cannot be evaluated ({rk['error']}); annotation clause not judged")
                     rk = {**rk, "kinds": ["any"]}
-                traces.append({"id": sc["id"], "served": sc["served"], "others": sc["others"], "c": sc["c"], "sh": sc["sh"], "role": sc["role"], "via": "method", "ann": rk["kinds"], "ev": ev, "_sc": sc, "_ret": by_sid[f"{idx}#0"]["ret"]})
+                traces.append({"id": sc["id"], "served": sc["served"], "others": sc["others"], "c": sc["c"], "sh": sc["sh"], "role": sc["role"], "sib": sc["sib"], "via": "method", "ann": rk["kinds"], "ev": ev, "_sc": sc, "_ret": by_sid[f"{idx}#0"]["ret"]})
         groups = retry
         chk.require(round_ <= 4, "package splitting did not converge")
     order = {s["id"]: i for i, s in enumerate(scen)}
@@ -485,7 +489,7 @@ def helper_traces(chk: Check) -> list[dict]:
     tr = []
     for h in helper_cases(chk):
         oc = outs[h["id"]]
-        tr.append({"id": h["id"], "served": "200", "others": [], "c": h["body"]["ct"], "sh": "object" if h["body"]["ct"] != "octet" else "-", "role": "helper", "via": "helper:" + h["fn"], "ann": ["any"], "ev": [{"body": h["body"], "got": got_of(oc), "_msg": oc.get("exc", {}).get("msg", "")[:160] if oc["kind"] == "raise" else ""}], "_sc": {"helper": h["fn"], "chunks": [bytes(c).decode("latin-1") for c in h["chunks"]]}})
+        tr.append({"id": h["id"], "served": "200", "others": [], "c": h["body"]["ct"], "sh": "object" if h["body"]["ct"] != "octet" else "-", "role": "helper", "sib": False, "via": "helper:" + h["fn"], "ann": ["any"], "ev": [{"body": h["body"], "got": got_of(oc), "_msg": oc.get("exc", {}).get("msg", "")[:160] if oc["kind"] == "raise" else ""}], "_sc": {"helper": h["fn"], "chunks": [bytes(c).decode("latin-1") for c in h["chunks"]]}})
     return tr
 
 
@@ -494,7 +498,7 @@ def helper_traces(chk: Check) -> list[dict]:
 
 
 def _good(body: dict, got: dict, ann: list[str], c: str, sh: str) -> dict:
-    return {"served": "200", "others": [], "c": c, "sh": sh, "role": "primary", "via": "method", "ann": ann, "ev": [{"body": body, "got": got}]}
+    return {"served": "200", "others": [], "c": c, "sh": sh, "role": "primary", "sib": False, "via": "method", "ann": ann, "ev": [{"body": body, "got": got}]}
 
 
 def negative_traces() -> list[dict]:
@@ -642,7 +646,7 @@ def account(chk: Check, traces: list[dict], vs: dict[str, dict], design_dev: Cou
 def scen_label(sc: dict) -> str:
     if "decl" not in sc:
         return json.dumps(sc)[:80]
-    return "{" + ", ".join(f"{st}: {r['c']}" + (f"/{r['sh']}" if r["sh"] != "-" else "") for st, r in sorted(sc["decl"].items())) + f"}} served {sc['served']}"
+    return ("[with sibling operation] " if sc.get("sib") else "") + "{" + ", ".join(f"{st}: {r['c']}" + (f"/{r['sh']}" if r["sh"] != "-" else "") for st, r in sorted(sc["decl"].items())) + f"}} served {sc['served']}"
 
 
 # --------------------------------------------------------------------------------------------
@@ -712,7 +716,7 @@ def replay(chk: Check, path: str) -> None:
     body = sc.pop("body")
     # the scenario with every body of its cell (level 1) plus the failing one first
     r = run_tlc(chk.scratch, "Gen_Reply", f"SPECIFICATION Spec\nCONSTANTS\n MaxDecl = {len(sc['others']) + 1}\n Level = 1\nCHECK_DEADLOCK FALSE\n", workers=4)
-    match = [s for s in r.printed.get("SCEN", []) if s["served"] == sc["served"] and sorted(s["others"]) == sorted(sc["others"]) and s["c"] == sc["c"] and s["sh"] == sc["sh"]]
+    match = [s for s in r.printed.get("SCEN", []) if s["served"] == sc["served"] and sorted(s["others"]) == sorted(sc["others"]) and s["c"] == sc["c"] and s["sh"] == sc["sh"] and s["sib"] == sc["sib"]]
     chk.require(len(match) == 1, "the replay's scenario is not in the specified scenario space")
     s = match[0]
     s["others"] = sorted(s["others"])
